@@ -1,3 +1,5 @@
 //! Shared helpers for the verification harness binaries.
-pub mod hexio;
 pub mod canon;
+pub mod hexio;
+pub mod rxrun;
+pub mod synth;
